@@ -1151,4 +1151,61 @@ theorem readback_tag (s : State) (r ref ct qd b : String) (lk : Bool) (a : Accep
     rw [h1] at hem; cases hem
   rw [if_neg hne, if_pos htag]
   exact hge
+
+/-! ## Content-Length of a manifest that was accepted -/
+
+theorem validateBody_parses (ro : Bool) (rp : Repo) (b : Body) (mt tag : String) (d : Dig) (a : Accepted)
+    (h : validateBody ro rp b mt tag d = .ok a) : b.asImage.isSome = true ∨ b.asIndex.isSome = true := by
+  unfold validateBody at h
+  split at h
+  · left
+    unfold validateImage at h
+    split at h
+    · simp [refuse] at h
+    · rename_i v hv; rw [hv]; rfl
+  · split at h
+    · right
+      unfold validateIndex at h
+      split at h
+      · simp [refuse] at h
+      · rename_i v hv; rw [hv]; rfl
+    · simp [refuse] at h
+
+theorem default_body_junk : (({} : Body).asImage.isSome = true ∨ ({} : Body).asIndex.isSome = true) → False := by
+  intro h
+  rcases h with h | h
+  · simp [Body.asImage] at h
+  · simp [Body.asIndex] at h
+
+/-- the body of an accepted push is a defined one -/
+theorem mValidate_defined (s : State) (r ref ct qd b : String) (lk : Bool) (a : Accepted)
+    (h : mValidate s r ref ct qd b lk = .ok a) : ∃ p, s.defs.find? (·.1 = b) = some p ∧ a.len = p.2.len := by
+  obtain ⟨_, _, _, f4, _, _⟩ := mValidate_facts s r ref ct qd b lk a h
+  unfold mValidate at h
+  obtain ⟨_, _, h⟩ := bind_ok _ _ _ h
+  obtain ⟨_, _, h⟩ := bind_ok _ _ _ h
+  obtain ⟨_, _, h⟩ := bind_ok _ _ _ h
+  obtain ⟨_, _, h⟩ := bind_ok _ _ _ h
+  obtain ⟨_, _, h⟩ := bind_ok _ _ _ h
+  obtain ⟨_, _, h⟩ := bind_ok _ _ _ h
+  have hp := validateBody_parses _ _ _ _ _ _ _ h
+  cases hf : s.defs.find? (·.1 = b) with
+  | none =>
+    exfalso
+    have : s.body b = {} := by unfold State.body; rw [hf]; rfl
+    rw [this] at hp
+    exact default_body_junk hp
+  | some p =>
+    refine ⟨p, rfl, ?_⟩
+    rw [f4]; unfold State.body; rw [hf]; rfl
+
+/-- for a manifest body (a content named `@…`) the Content-Length served afterwards is the length that was pushed -/
+theorem contentLen_accepted (s : State) (r ref ct qd b : String) (lk : Bool) (a : Accepted)
+    (hv : mValidate (s.setRepo (s.repo r)) r ref ct qd b lk = .ok a) (hb : b.startsWith "@" = true) :
+    contentLen (mPut s r ref ct qd b lk).1 b = a.len := by
+  obtain ⟨p, hf, hl⟩ := mValidate_defined _ r ref ct qd b lk a hv
+  rw [setRepo_defs] at hf
+  have hdefs : (mPut s r ref ct qd b lk).1.defs = s.defs := (frame_mPut s r ref ct qd b lk).2.2
+  unfold contentLen
+  rw [if_pos hb, hdefs, hf, hl]
 end Upd
